@@ -114,7 +114,14 @@ class Analysis(object):
                     key = "%s.%s" % (self.class_names()[e.value.id], e.attr)
                     if key in self.roots:
                         return {key}
-            return self.root_of_expr(f, e.value, aliases)      # drawn from the base object
+            out = set(self.root_of_expr(f, e.value, aliases))      # drawn from the base object
+            # an instance of a class whose mutable attribute is a CLASS attribute never re-bound in __init__: the
+            # instance attribute is the shared class-level object, whatever name the instance travels under
+            for key, info in self.roots.items():
+                if info["kind"] == "class" and info["name"] == e.attr \
+                        and e.attr not in self.class_inits.get("%s.%s" % (info["module"], info["cls"]), set()):
+                    out.add(key)
+            return out
         if isinstance(e, ast.Subscript):
             return self.root_of_expr(f, e.value, aliases)
         if isinstance(e, ast.Call):
